@@ -138,6 +138,9 @@ def concrete(shape, name, g):
         if isinstance(sel, int):
             return shape.values[-1]
         return g.rng.choice(shape.values)
+    if isinstance(shape, S.Choice):
+        v = g.get(name)
+        return v if v in shape.values else g.rng.choice(shape.values)
     if isinstance(shape, S.OpaqueT):
         return None
     if isinstance(shape, S.StructsT):
@@ -225,7 +228,7 @@ def make_structs(shape, name, g):
     if shape.cls == 'ELFStructs':
         from elftools.elf.structs import ELFStructs
         le = concrete(shape.attrs.get('little_endian', S.Bool), name + '.little_endian', g)
-        ec = concrete(shape.attrs.get('elfclass', S.OneOf(32, 64)), name + '.elfclass', g)
+        ec = concrete(shape.attrs.get('elfclass', S.Choice(32, 64)), name + '.elfclass', g)
         st = ELFStructs(little_endian=le, elfclass=ec)
         st.create_basic_structs()
         st.create_advanced_structs(getattr(shape, 'e_type', None), getattr(shape, 'e_machine', None),
